@@ -94,3 +94,28 @@ Theorem C02_joined_conservation_detached :
 Proof. exact ConcExtras.Extended.joined_conservation_x. Qed.
 Print Assumptions C02_joined_conservation_detached.
 
+(** THREE stages with reset_index / detach / sync_index / attach on worker and consumer (Conc/RA3xvalues.v): every value the consumer gets is the
+    pushed value, transformed exactly once iff the worker touched that position (never if the worker skipped it by reset_index), positions strictly
+    increase and stay below the worker's PUBLISHED position; without resets: exactly the prefix, everything transformed; the worker never edits a
+    position the consumer has read or could read *)
+Require MRB.Conc.RA3xvalues.
+Theorem C02_values_three_stages_reset_detached :
+  forall (len : nat) (pv f init : nat -> nat) (script : list (RA3.tid * RA3x.cmd)), 0 < len -> let v := RA3xvalues.vrun len pv f init script in RA3xvalues.clog v = List.map (fun p : nat => if List.existsb (PeanoNat.Nat.eqb p) (RA3xvalues.wlog v) then f (pv p) else pv p) (RA3xvalues.plog v).
+Proof. exact RA3xvalues.consumed_values_3x. Qed.
+Print Assumptions C02_values_three_stages_reset_detached.
+
+Theorem C02_positions_three_stages_reset_detached :
+  forall (len : nat) (pv f init : nat -> nat) (script : list (RA3.tid * RA3x.cmd)), 0 < len -> let c := RA3x.exec3_x len (RA3x.init3_x len) script in let v := RA3xvalues.vrun len pv f init script in Sorted.StronglySorted lt (RA3xvalues.plog v) /\ List.Forall (fun p : nat => len <= p < RA3x.publishedW3 c) (RA3xvalues.plog v) /\ Sorted.StronglySorted lt (RA3xvalues.wlog v) /\ List.Forall (fun p : nat => len <= p < RA3x.publishedP3 c) (RA3xvalues.wlog v).
+Proof. exact RA3xvalues.consumed_positions_increasing_3x. Qed.
+Print Assumptions C02_positions_three_stages_reset_detached.
+
+Theorem C02_no_reset_prefix_three_stages :
+  forall (len : nat) (pv f init : nat -> nat) (script : list (RA3.tid * RA3x.cmd)), 0 < len -> (forall (t : RA3.tid) (j : nat), ~ List.In (t, RA3x.Reset j) script) -> let v := RA3xvalues.vrun len pv f init script in RA3xvalues.plog v = List.seq len (length (RA3xvalues.plog v)) /\ RA3xvalues.wlog v = List.seq len (length (RA3xvalues.wlog v)) /\ RA3xvalues.clog v = List.map (fun p : nat => f (pv p)) (RA3xvalues.plog v).
+Proof. exact RA3xvalues.no_reset_prefix_3x. Qed.
+Print Assumptions C02_no_reset_prefix_three_stages.
+
+Theorem C02_edit_status_frozen :
+  forall (len : nat) (pv f init : nat -> nat) (s1 s2 : list (RA3.tid * RA3x.cmd)), 0 < len -> let c1 := RA3x.exec3_x len (RA3x.init3_x len) s1 in let v1 := RA3xvalues.vrun len pv f init s1 in let v2 := RA3xvalues.vrun len pv f init (s1 ++ s2) in (exists l : list nat, RA3xvalues.wlog v2 = (RA3xvalues.wlog v1 ++ l)%list /\ List.Forall (fun p : nat => RA3x.pos3 (RA3x.W3 c1) + RA3x.off3 (RA3x.W3 c1) <= p) l) /\ (exists l : list nat, RA3xvalues.plog v2 = (RA3xvalues.plog v1 ++ l)%list) /\ (exists l : list nat, RA3xvalues.clog v2 = (RA3xvalues.clog v1 ++ l)%list) /\ (forall p : nat, p < RA3x.pos3 (RA3x.W3 c1) + RA3x.off3 (RA3x.W3 c1) -> List.existsb (PeanoNat.Nat.eqb p) (RA3xvalues.wlog v2) = List.existsb (PeanoNat.Nat.eqb p) (RA3xvalues.wlog v1)) /\ RA3x.publishedW3 c1 <= RA3x.pos3 (RA3x.W3 c1) + RA3x.off3 (RA3x.W3 c1) /\ List.Forall (fun p : nat => p < RA3x.publishedW3 c1) (RA3xvalues.plog v1).
+Proof. exact RA3xvalues.edit_status_frozen_3x. Qed.
+Print Assumptions C02_edit_status_frozen.
+
